@@ -49,6 +49,9 @@ def form_lines(st):
         return _L("sim_v%d = S.op('%s')" % (i, p[0]))
     if f == 'expr':
         return _L("S.op('%s')" % p[0])
+    if f == 'sharedcall':
+        # the same text in more than one doctest of the module
+        return _L("modshared(1)")
     if f == 'zcall':
         # (the implicit example the native runner builds for a function callable without arguments)
         return _L("%s()" % st['name'])
@@ -279,9 +282,9 @@ def form_out(st):
     return []
 
 
-EXPR_FORMS = {'expr', 'zcall', 'usestd', 'print', 'emit', 'emitnoeol', 'emitcr', 'keepglobal', 'writekept', 'coroexpr', 'reprexpr', 'sayval', 'modsay', 'say', 'multiline', 'semiemit', 'tqprint', 'callhelper_expr', 'callhelper_emit',
+EXPR_FORMS = {'expr', 'zcall', 'usestd', 'sharedcall', 'print', 'emit', 'emitnoeol', 'emitcr', 'keepglobal', 'writekept', 'coroexpr', 'reprexpr', 'sayval', 'modsay', 'say', 'multiline', 'semiemit', 'tqprint', 'callhelper_expr', 'callhelper_emit',
               'callmod_expr', 'awaitexpr', 'awaitprint', 'names', 'emitop'}
-VALUE_FORMS = {'expr': 0, 'multiline': 0, 'callhelper_expr': 0, 'callmod_expr': 0, 'awaitexpr': 0, 'emitop': 0, 'reprexpr': 0}
+VALUE_FORMS = {'sharedcall': 0, 'expr': 0, 'multiline': 0, 'callhelper_expr': 0, 'callmod_expr': 0, 'awaitexpr': 0, 'emitop': 0, 'reprexpr': 0}
 NOCODE_FORMS = {'comment', 'directive', 'blankprompt'}
 ASYNC_FORMS = {'await', 'awaitexpr', 'awaitprint', 'gather', 'asyncwith', 'asyncfor', 'awaitco', 'bgtask'}
 
@@ -293,6 +296,8 @@ def is_expr(st):
 def value_repr(st):
     if st['form'] == 'reprexpr':
         return 'R7'
+    if st['form'] == 'sharedcall':
+        return '<%s>' % tok(st['spid'])
     if st['form'] in VALUE_FORMS:
         return '<%s>' % tok(st['pts'][0])
     return None
@@ -581,6 +586,11 @@ def simshadow():
 
 def modhelper1(pid):
     return S.op(pid)
+
+
+def modshared(x):
+    # (called by statements whose text is the same in several doctests of this module)
+    return S.op('qsh%(short)ss0a')
 
 
 SIM_IMPORT_STDOUT = sys.stdout
